@@ -7,6 +7,7 @@ import tempfile
 REPO = os.environ.get("VERIF_REPO", "/repo")
 sys.path.insert(0, REPO)
 
+from twisted.internet import error                         # noqa: E402
 from twisted.python import failure, log                   # noqa: E402
 from twisted.test import proto_helpers                    # noqa: E402
 
@@ -95,7 +96,9 @@ class Run(object):
                 # Tor answers the earlier service's unsubscription (and then whatever queued behind it)
                 self.hold_se = False
                 self.sim.release()
-            if a == "Refuse":
+            if a == "Lose":
+                self.proto.connectionLost(failure.Failure(error.ConnectionLost("injected")))
+            elif a == "Refuse":
                 self.sim.release(b"512 Bad arguments: refused\r\n" if self.kind == "eph" else b"513 Unacceptable option value: refused\r\n")
             elif a == "Reply":
                 if self.kind == "fs":
